@@ -151,6 +151,14 @@ func (g *c07Gen) doc() J {
 		}
 		schemas[fmt.Sprintf("T%d", i)] = s
 	}
+	// two fixed shapes in every document: the member kinds whose encoding depends on a template guard or a tag rule
+	schemas["FixA"] = J{"type": "object", "required": []interface{}{"id", "note"}, "additionalProperties": true,
+		"properties": J{"id": J{"type": "integer", "format": "int64"}, "note": J{"type": "string", "nullable": true}, "tag": J{"type": "string"},
+			"opt_note": J{"type": "string", "nullable": true}}}
+	schemas["FixB"] = J{"type": "object", "required": []interface{}{"id", "name", "active", "label", "secret"},
+		"properties": J{"id": J{"type": "integer", "format": "int64", "readOnly": true}, "name": J{"type": "string", "readOnly": true},
+			"active": J{"type": "boolean", "readOnly": true}, "label": J{"type": "string"}, "count": J{"type": "integer"},
+			"secret": J{"type": "string", "writeOnly": true}, "items": J{"type": "array", "items": J{"type": "string"}, "readOnly": true}}}
 	return J{"openapi": "3.0.3", "info": J{"title": "t", "version": "1"}, "paths": J{}, "components": J{"schemas": schemas}}
 }
 
@@ -382,7 +390,7 @@ func diffClass(d string) string {
 		return "other"
 	}
 	rest := d[i+2:]
-	for _, k := range []string{"explicit null lost", "member lost", "member invented", "empty array became null", "array length", "number", "string", "null became", "object became", "array became"} {
+	for _, k := range []string{"explicit null of a required member lost", "explicit null lost", "member lost", "member invented", "empty array became null", "array length", "number", "string", "null became", "object became", "array became"} {
 		if strings.HasPrefix(rest, k) {
 			return strings.ReplaceAll(k, " ", "-")
 		}
@@ -484,6 +492,9 @@ func runC07(ctx *Ctx) error {
 				continue
 			}
 			if diff := c07Equal(in1, out1, "$"); diff != "" {
+				if strings.HasSuffix(diff, "explicit null lost") && c07RequiredAt(schemas, schemas[name].(J), strings.TrimSuffix(strings.TrimPrefix(diff, "$"), ": explicit null lost")) {
+					diff = strings.Replace(diff, "explicit null lost", "explicit null of a required member lost", 1)
+				}
 				var cls []string
 				for c := range ig.classes {
 					cls = append(cls, c)
@@ -509,4 +520,75 @@ func sameInstant(a, b string) bool {
 	ta, e1 := time.Parse(time.RFC3339Nano, a)
 	tb, e2 := time.Parse(time.RFC3339Nano, b)
 	return e1 == nil && e2 == nil && ta.Equal(tb)
+}
+
+// c07RequiredAt: is the member at the path (".a.b[0].c") listed as required by the object schema that declares it?
+func c07RequiredAt(schemas J, root J, path string) bool {
+	deref := func(s J) J {
+		for s != nil {
+			ref, ok := s["$ref"].(string)
+			if !ok {
+				return s
+			}
+			s, _ = schemas[strings.TrimPrefix(ref, "#/components/schemas/")].(J)
+		}
+		return s
+	}
+	var segs []string
+	for _, p := range strings.Split(strings.ReplaceAll(path, "[", ".["), ".") {
+		if p != "" {
+			segs = append(segs, p)
+		}
+	}
+	var candidates []J
+	candidates = append(candidates, root)
+	for i, seg := range segs {
+		var next []J
+		last := i == len(segs)-1
+		for _, c := range candidates {
+			c = deref(c)
+			if c == nil {
+				continue
+			}
+			var objs []J
+			objs = append(objs, c)
+			for _, key := range []string{"allOf", "oneOf", "anyOf"} {
+				if l, ok := c[key].([]interface{}); ok {
+					for _, m := range l {
+						if mj := deref(m.(J)); mj != nil {
+							objs = append(objs, mj)
+						}
+					}
+				}
+			}
+			for _, o := range objs {
+				if strings.HasPrefix(seg, "[") {
+					if it, ok := o["items"].(J); ok {
+						next = append(next, it)
+					}
+					continue
+				}
+				if props, ok := o["properties"].(J); ok {
+					if ps, ok := props[seg].(J); ok {
+						if last {
+							if rl, ok := o["required"].([]interface{}); ok {
+								for _, x := range rl {
+									if fmt.Sprint(x) == seg {
+										return true
+									}
+								}
+							}
+						}
+						next = append(next, ps)
+						continue
+					}
+				}
+				if ap, ok := o["additionalProperties"].(J); ok {
+					next = append(next, ap)
+				}
+			}
+		}
+		candidates = next
+	}
+	return false
 }
